@@ -19,4 +19,24 @@ theorem table_all_admissible : table.all (fun d => d.admissible table) = true :=
 theorem table_wf : ∀ d ∈ table, d.admissible table = true :=
   List.all_eq_true.mp table_all_admissible
 
+/-- the names with a documented shape of their own -/
+def specialNames : List String := ["names", "pipelines", "targets", "observers", "sight_lines", "foil_detectors"]
+
+/-- hence every other group-level attribute of every class satisfies the hypothesis of `Cherab.Props.C15.wf_broadcast_laws`,
+`history_last_write_wins`, … -/
+theorem table_broadcast_wf : ∀ d ∈ table, d.name ∉ specialNames → d.wfBroadcast = true := by
+  intro d hd hn
+  have h := table_wf d hd
+  simp only [specialNames, List.mem_cons, List.not_mem_nil, or_false, not_or] at hn
+  obtain ⟨h1, h2, h3, h4, h5, h6⟩ := hn
+  simpa [Descriptor.admissible, h1, h2, h3, h4, h5, h6] using h
+
+/-- and the documented shapes sit under their documented names -/
+theorem table_special_wf : ∀ d ∈ table,
+    (d.name = "names" → d.wfSeqOnly = true) ∧ (d.name = "pipelines" → d.wfLenOnly = true) ∧
+    (d.name = "targets" → d.wfAllSeq = true) := by
+  intro d hd
+  have h := table_wf d hd
+  refine ⟨?_, ?_, ?_⟩ <;> intro hn <;> simpa [Descriptor.admissible, hn] using h
+
 end Cherab.Props.C15Table
